@@ -224,9 +224,9 @@ func runChild(j childJob, budget time.Duration, reset func()) string {
 		if env != "" {
 			continue
 		}
-		if st == "hung" && budget < 600*time.Second {
+		if st == "hung" && budget < wdLong {
 			again()
-			st, env = runChildOnce(b, 600*time.Second)
+			st, env = runChildOnce(b, wdLong)
 			if env != "" {
 				continue
 			}
